@@ -1095,4 +1095,279 @@ theorem skip_step {h : Hist} {t : Tracker} (inv : Inv h t) (ms : Nat) (hok : Roo
           intro hp; have := hp.2.1; omega
         rw [(hB u hp).1]; exact inv.low u hu'
 
+/-! ### batches of marks (`handle_finalization`) -/
+
+theorem Step.sub {t t' : Tracker} {ann ann' : List (Nat × (Nat × Nat))} {w : List Wake} (h : Step t t' ann w)
+    (hnd : ann'.Nodup) (hsub : ∀ a ∈ ann', a ∈ ann) : Step t t' ann' w :=
+  ⟨h.root, h.ext, hnd, fun s b hm => h.annNew s b (hsub _ hm), h.waiter, h.wake⟩
+
+theorem foldl_nfMark_root (bs : List (Nat × Nat)) (h : Hist) : (bs.foldl Hist.nfMark h).root = h.root := by
+  induction bs generalizing h with
+  | nil => rfl
+  | cons b bs ih =>
+    rw [List.foldl_cons, ih]
+    unfold Hist.nfMark; split <;> rfl
+
+theorem foldl_nfMark_sk (bs : List (Nat × Nat)) (h : Hist) : (bs.foldl Hist.nfMark h).sk = h.sk := by
+  induction bs generalizing h with
+  | nil => rfl
+  | cons b bs ih =>
+    rw [List.foldl_cons, ih]
+    unfold Hist.nfMark; split <;> rfl
+
+theorem skMark_root (h : Hist) (s : Nat) : (h.skMark s).root = h.root := by
+  unfold Hist.skMark; split <;> rfl
+
+theorem skMark_sk_mono (h : Hist) (s : Nat) {x : Nat} (hx : x ∈ h.sk) : x ∈ (h.skMark s).sk := by
+  unfold Hist.skMark; split
+  · exact hx
+  · exact List.mem_cons_of_mem _ hx
+
+theorem foldl_skMark_root (ss : List Nat) (h : Hist) : (ss.foldl Hist.skMark h).root = h.root := by
+  induction ss generalizing h with
+  | nil => rfl
+  | cons b bs ih => rw [List.foldl_cons, ih, skMark_root]
+
+theorem foldl_skMark_sk_mono (ss : List Nat) (h : Hist) {x : Nat} (hx : x ∈ h.sk) : x ∈ (ss.foldl Hist.skMark h).sk := by
+  induction ss generalizing h with
+  | nil => exact hx
+  | cons b bs ih => rw [List.foldl_cons]; exact ih _ (skMark_sk_mono h b hx)
+
+theorem RootOK.of_later {h h' : Hist} (hr : h'.root = h.root) (hsk : ∀ x, x ∈ h.sk → x ∈ h'.sk) (hok : RootOK h') :
+    RootOK h := by
+  unfold RootOK at *
+  rw [hr] at hok
+  rcases hok with a | a
+  · exact Or.inl a
+  · exact Or.inr (fun hm => a (hsk _ hm))
+
+theorem markAllNf_step {h : Hist} {t : Tracker} (inv : Inv h t) (bs : List (Nat × Nat)) :
+    ∃ t' ann w, markAllNf t bs = some (t', ann, w) ∧ Inv (bs.foldl Hist.nfMark h) t' ∧ Step t t' ann w := by
+  induction bs generalizing h t with
+  | nil => exact ⟨t, [], [], rfl, inv, Step.of_same rfl (fun _ => rfl) inv.waiter⟩
+  | cons b bs ih =>
+    obtain ⟨t1, n1, w1, e1, inv1, s1, _⟩ := nf_step inv b
+    obtain ⟨t2, n2, w2, e2, inv2, s2⟩ := ih inv1
+    exact ⟨t2, n1 ++ n2, w1 ++ w2, by simp only [markAllNf, e1, e2], inv2, s1.trans s2⟩
+
+theorem markAllSkipped_step {h : Hist} {t : Tracker} (inv : Inv h t) (ss : List Nat)
+    (hok : RootOK (ss.foldl Hist.skMark h)) :
+    ∃ t' ann w, markAllSkipped t ss = some (t', ann, w) ∧ Inv (ss.foldl Hist.skMark h) t' ∧ Step t t' ann w := by
+  induction ss generalizing h t with
+  | nil => exact ⟨t, [], [], rfl, inv, Step.of_same rfl (fun _ => rfl) inv.waiter⟩
+  | cons b bs ih =>
+    rw [List.foldl_cons] at hok
+    have hok1 : RootOK (h.skMark b) :=
+      hok.of_later (foldl_skMark_root bs _) (fun x hx => foldl_skMark_sk_mono bs _ hx)
+    obtain ⟨t1, n1, w1, e1, inv1, s1, _⟩ := skip_step inv b hok1
+    obtain ⟨t2, n2, w2, e2, inv2, s2⟩ := ih inv1 hok
+    exact ⟨t2, n1 ++ n2, w1 ++ w2, by simp only [markAllSkipped, e1, e2], inv2, s1.trans s2⟩
+
+/-- the history after a finalization event -/
+def Hist.finMark (h : Hist) (ev : Finality.Event) : Hist :=
+  ev.implSkipped.foldl Hist.skMark ((ev.finalized.toList ++ ev.implFinalized).foldl Hist.nfMark h)
+
+theorem fin_step {h : Hist} {t : Tracker} (inv : Inv h t) (ev : Finality.Event) (hok : RootOK (h.finMark ev)) :
+    ∃ t' ann w, handleFinalization t ev = some (t', ann, w) ∧ Inv (h.finMark ev) t' ∧ Step t t' ann w := by
+  obtain ⟨t1, n1, w1, e1, inv1, s1⟩ := markAllNf_step inv (ev.finalized.toList ++ ev.implFinalized)
+  obtain ⟨t2, n2, w2, e2, inv2, s2⟩ := markAllSkipped_step inv1 ev.implSkipped hok
+  refine ⟨t2, (lastMax (n1 ++ n2)).toList, w1 ++ w2, by simp only [handleFinalization, e1, e2], inv2, ?_⟩
+  refine (s1.trans s2).sub ?_ ?_
+  · cases lastMax (n1 ++ n2) <;> simp
+  · intro a ha
+    cases hl : lastMax (n1 ++ n2) with
+    | none => rw [hl] at ha; cases ha
+    | some x =>
+      rw [hl] at ha
+      simp only [Option.toList_some, List.mem_singleton] at ha
+      subst ha
+      exact lastMax_mem hl
+
+/-! ### `prune`, `wait_for_parent_ready` -/
+
+theorem get_prune (t : Tracker) (r u : Nat) : get (prune t r) u = if u < r then {} else get t u := by
+  unfold get prune
+  simp only
+  split <;> rfl
+
+theorem prune_step {h : Hist} {t : Tracker} (inv : Inv h t) {r : Nat} (hr : h.root ≤ r) :
+    Inv (h.pruneTo r) (prune t r) := by
+  have hg : ∀ u, r ≤ u → get (prune t r) u = get t u := by
+    intro u hu; rw [get_prune, if_neg (by omega)]
+  have hl : ∀ u, u < r → get (prune t r) u = {} := by
+    intro u hu; rw [get_prune, if_pos hu]
+  refine ⟨rfl, ?_, ?_, ?_, inv.top, ?_, ?_, ?_, ?_⟩
+  · intro u hu
+    have hu' : r ≤ u := hu
+    rw [hg u hu']; exact inv.skip u (by omega)
+  · intro u x hu
+    have hu' : r ≤ u := hu
+    rw [hg u hu']; exact inv.nfs u x (by omega)
+  · intro s b hs
+    have hs' : r ≤ s := hs
+    rw [hg s hs']; exact inv.ready s b (by omega)
+  · intro u
+    by_cases hu : u < r
+    · rw [hl u hu]; exact List.nodup_nil
+    · rw [hg u (by omega)]; exact inv.nfsNodup u
+  · intro u
+    by_cases hu : u < r
+    · rw [hl u hu]; exact List.nodup_nil
+    · rw [hg u (by omega)]; exact inv.readyNodup u
+  · intro u
+    by_cases hu : u < r
+    · rw [hl u hu]; intro hh; cases hh
+    · rw [hg u (by omega)]; exact inv.waiter u
+  · intro u hu
+    have hu' : u < r := hu
+    rw [hl u hu']
+
+theorem nodup_insertSorted {x : Nat × Nat} {l : List (Nat × Nat)} (hx : x ∉ l) (hl : l.Nodup) :
+    (insertSorted x l).Nodup := by
+  induction l with
+  | nil => exact nodup_single x
+  | cons y ys ih =>
+    simp only [insertSorted]
+    split
+    · exact List.nodup_cons.mpr ⟨hx, hl⟩
+    · have hl' := List.nodup_cons.mp hl
+      refine List.nodup_cons.mpr ⟨?_, ih (fun hm => hx (List.mem_cons_of_mem _ hm)) hl'.2⟩
+      rw [mem_insertSorted]
+      rintro (e | hm)
+      · exact hx (e ▸ List.mem_cons_self)
+      · exact hl'.1 hm
+
+theorem nodup_sortBlocks {l : List (Nat × Nat)} (hl : l.Nodup) : (sortBlocks l).Nodup := by
+  unfold sortBlocks
+  induction l with
+  | nil => exact List.nodup_nil
+  | cons y ys ih =>
+    have hl' := List.nodup_cons.mp hl
+    rw [List.foldr_cons]
+    exact nodup_insertSorted (fun hm => hl'.1 (mem_sortBlocks.mp hm)) (ih hl'.2)
+
+/-- `wait_for_parent_ready`: the ready lists keep their members (the list of the slot is sorted in place), the invariant
+    is kept; the only panic is a second waiter for the same slot. -/
+theorem wait_step {h : Hist} {t : Tracker} (inv : Inv h t) (s : Nat) :
+    match waitForParentReady t s with
+    | .ready t' b => Inv h t' ∧ t'.root = t.root ∧ (∀ x p, p ∈ (get t' x).ready ↔ p ∈ (get t x).ready) ∧
+        (∀ x, (get t' x).waiter = (get t x).waiter) ∧ b ∈ (get t s).ready
+    | .waiting t' => Inv h t' ∧ t'.root = t.root ∧ (∀ x, (get t' x).ready = (get t x).ready) ∧
+        (∀ x, (get t' x).waiter = true ↔ x = s ∨ (get t x).waiter = true) ∧ (get t s).ready = []
+    | .panic => (get t s).waiter = true ∧ (get t s).ready = [] := by
+  unfold waitForParentReady
+  simp only
+  cases hs : sortBlocks (get t s).ready with
+  | cons b rest =>
+    simp only
+    have hmem : ∀ p, p ∈ b :: rest ↔ p ∈ (get t s).ready := fun p => by rw [← hs]; exact mem_sortBlocks
+    have hne : (get t s).ready ≠ [] := by
+      intro e; rw [e] at hs; cases hs
+    have hrd : ∀ x p, p ∈ (get (put t s { get t s with ready := b :: rest }) x).ready ↔ p ∈ (get t x).ready := by
+      intro x p
+      by_cases e : x = s
+      · subst e; rw [get_put_same]; exact hmem p
+      · rw [get_put_other _ _ e]
+    have hwt : ∀ x, (get (put t s { get t s with ready := b :: rest }) x).waiter = (get t x).waiter := by
+      intro x
+      by_cases e : x = s
+      · subst e; rw [get_put_same]
+      · rw [get_put_other _ _ e]
+    refine ⟨⟨inv.root, ?_, ?_, ?_, inv.top, ?_, ?_, ?_, ?_⟩, rfl, hrd, hwt, (hmem b).mp List.mem_cons_self⟩
+    · intro u hu
+      by_cases e : u = s
+      · subst e; rw [get_put_same]; exact inv.skip u hu
+      · rw [get_put_other _ _ e]; exact inv.skip u hu
+    · intro u x hu
+      by_cases e : u = s
+      · subst e; rw [get_put_same]; exact inv.nfs u x hu
+      · rw [get_put_other _ _ e]; exact inv.nfs u x hu
+    · intro x p hx; rw [hrd]; exact inv.ready x p hx
+    · intro u
+      by_cases e : u = s
+      · subst e; rw [get_put_same]; exact inv.nfsNodup u
+      · rw [get_put_other _ _ e]; exact inv.nfsNodup u
+    · intro u
+      by_cases e : u = s
+      · subst e; rw [get_put_same]
+        show (b :: rest).Nodup
+        rw [← hs]; exact nodup_sortBlocks (inv.readyNodup u)
+      · rw [get_put_other _ _ e]; exact inv.readyNodup u
+    · intro u hu
+      rw [hwt] at hu
+      by_cases e : u = s
+      · subst e; exact absurd (inv.waiter u hu) hne
+      · rw [get_put_other _ _ e]; exact inv.waiter u hu
+    · intro u hu
+      by_cases e : u = s
+      · subst e; exact absurd (inv.low u hu) hne
+      · rw [get_put_other _ _ e]; exact inv.low u hu
+  | nil =>
+    simp only
+    have hnil : (get t s).ready = [] := by
+      apply List.eq_nil_iff_forall_not_mem.mpr
+      intro p hp
+      have := mem_sortBlocks.mpr hp
+      rw [hs] at this; cases this
+    by_cases hw : (get t s).waiter = true
+    · rw [if_pos hw]; exact ⟨hw, hnil⟩
+    · rw [if_neg hw]
+      have hrd : ∀ x, (get (put t s { get t s with waiter := true }) x).ready = (get t x).ready := by
+        intro x
+        by_cases e : x = s
+        · subst e; rw [get_put_same]
+        · rw [get_put_other _ _ e]
+      refine ⟨⟨inv.root, ?_, ?_, ?_, inv.top, ?_, ?_, ?_, ?_⟩, rfl, hrd, ?_, hnil⟩
+      · intro u hu
+        by_cases e : u = s
+        · subst e; rw [get_put_same]; exact inv.skip u hu
+        · rw [get_put_other _ _ e]; exact inv.skip u hu
+      · intro u x hu
+        by_cases e : u = s
+        · subst e; rw [get_put_same]; exact inv.nfs u x hu
+        · rw [get_put_other _ _ e]; exact inv.nfs u x hu
+      · intro x p hx; rw [hrd]; exact inv.ready x p hx
+      · intro u
+        by_cases e : u = s
+        · subst e; rw [get_put_same]; exact inv.nfsNodup u
+        · rw [get_put_other _ _ e]; exact inv.nfsNodup u
+      · intro u; rw [hrd]; exact inv.readyNodup u
+      · intro u hu
+        rw [hrd]
+        by_cases e : u = s
+        · subst e; exact hnil
+        · rw [get_put_other _ _ e] at hu; exact inv.waiter u hu
+      · intro u hu; rw [hrd]; exact inv.low u hu
+      · intro x
+        by_cases e : x = s
+        · subst e; rw [get_put_same]; simp
+        · rw [get_put_other _ _ e]; simp [e]
+
+theorem inv_init : Inv {} init := by
+  have hg : ∀ u, get init u = if u = 0 then { nfs := [0] } else {} := by
+    intro u; unfold get init; simp only; split <;> rfl
+  refine ⟨rfl, ?_, ?_, ?_, ?_, ?_, ?_, ?_, ?_⟩
+  · intro u _; rw [hg]; split <;> simp
+  · intro u x _; rw [hg]
+    split
+    · rename_i e; subst e; simp
+    · rename_i e; simp [e]
+  · intro s b _; rw [hg]
+    have : (if s = 0 then ({ nfs := [0] } : PState) else {}).ready = [] := by split <;> rfl
+    rw [this]
+    simp only [List.not_mem_nil, false_iff, not_and]
+    intro _ hc
+    unfold Connected at hc
+    obtain ⟨h1, h2, h3⟩ := hc
+    simp only [List.mem_singleton] at h2
+    subst h2
+    by_cases e : s = 1
+    · subst e; revert ‹isWindowStart 1 = true›; decide
+    · exact absurd (h3 1 (by simp) (by simp at h1; omega)) (by simp)
+  · intro u hu; cases hu
+  · intro u; rw [hg]; split <;> simp
+  · intro u; rw [hg]; split <;> simp
+  · intro u; rw [hg]; split <;> simp
+  · intro u hu; exact absurd hu (Nat.not_lt_zero u)
+
 end AgModel.ParentReady
